@@ -61,6 +61,11 @@ func (p *Parser) nextToken() error {
 	}
 
 	token, err := p.lexer.NextToken()
+	// Comments count as whitespace: they never reach the parser, so that the
+	// two-token lookahead for "n g R" sees through them
+	for err == nil && token != nil && token.Type == TokenComment {
+		token, err = p.lexer.NextToken()
+	}
 	if err != nil {
 		return err
 	}
